@@ -9,12 +9,21 @@
   `DiskCfg`, `UsageCfg`); `Model/C09Gen.lean` instantiates them with what the translator
   extracted from the current source.
 
-  Not modelled: the `/sys/block/*/stat` fallback `read_sysfs` (used only when
-  `/proc/diskstats` does not exist) and the `nowrap=True` post-processing (property C10).
+  `read_sysfs` (the `/sys/block/*/stat` fallback used when `/proc/diskstats` does not exist), the
+  choice between the two sources and the `NotImplementedError` branch are modelled over a
+  `DiskWorld`. `int()` is `Base/C09Int.pyInt?` (sign, single underscores, leading zeros,
+  surrounding whitespace) on ASCII tokens. Outside the value domain of the model (reported as
+  `Exc.unmodelled`, never as a value): a *negative* `int()` result, a token with a byte ≥ 0x80
+  (`int()` accepts non-ASCII decimal digits), text that `split()` sees containing a UTF-8 encoded
+  Unicode space.
+
+  Not modelled: the `nowrap=True` post-processing (property C10).
 -/
 import PsutilModel.Base.Bytes
 import PsutilModel.Base.Dec
 import PsutilModel.Base.C09Text
+import PsutilModel.Base.C09Int
+import PsutilModel.Base.C09Sysfs
 namespace Psutil.C09
 
 /-- the exceptions the modelled code can raise -/
@@ -24,6 +33,8 @@ inductive Exc
   | indexError        -- `fields[i]` out of range (unreachable with the current branch table)
   | nameError         -- a name used before assignment (unreachable with the current tables)
   | typeError         -- namedtuple called with the wrong number of values
+  | notImplementedError  -- neither `/proc/diskstats` nor `/sys/block` exists
+  | unmodelled        -- not an exception: the input is outside the model's domain (see the header)
   deriving DecidableEq, Repr
 
 inductive Res (α : Type)
@@ -47,13 +58,18 @@ def Dict.set (d : Dict) (k : Bytes) (v : List Nat) : Dict :=
 /-- local variables after a tuple-unpack: the *last* assignment of a name wins -/
 def lookupLast (env : List (String × Nat)) (k : String) : Option Nat := env.reverse.lookup k
 
-/-- `map(int, toks)` on plain decimal tokens (`none` = ValueError) -/
-def ints : List Bytes → Option (List Nat)
-  | [] => some []
-  | t :: r =>
-    match parseDec? t, ints r with
-    | some n, some ns => some (n :: ns)
-    | _, _ => none
+/-- `int(t)` for one token of a text-mode `/proc` or `/sys` file -/
+def intTok (t : Bytes) : Res Nat :=
+  if hasNonAscii t then .err .unmodelled
+  else match pyInt? t with
+    | none => .err .valueError
+    | some (.ofNat n) => .ok n
+    | some (.negSucc _) => .err .unmodelled
+
+/-- `map(int, toks)` consumed from left to right by a tuple-unpack -/
+def ints : List Bytes → Res (List Nat)
+  | [] => .ok []
+  | t :: r => (intTok t).bind fun n => (ints r).bind fun ns => .ok (n :: ns)
 
 /-- the values of the named local variables (`none` = one of them is unbound) -/
 def lookups (env : List (String × Nat)) : List String → Option (List Nat)
@@ -87,10 +103,11 @@ def netLine (cfg : NetCfg) (line : Bytes) : Res (Bytes × List Nat) :=
     let colon := c + 1
     let name := stripP cfg.nameWs (line.take colon)
     -- `line[colon+1:].strip().split()`; `strip()` before `split()` is a no-op
+    if hasUniSpace (line.drop (colon + 1)) then .err .unmodelled else
     let fields := splitP isWsT (line.drop (colon + 1))
     match ints fields with
-    | none => .err .valueError
-    | some vs =>
+    | .err e => .err e
+    | .ok vs =>
       if vs.length ≠ cfg.unpack.length then .err .valueError
       else match lookups (cfg.unpack.zip vs) cfg.output with
         | none => .err .nameError
@@ -140,9 +157,7 @@ def guardHolds (g : List (Bool × Nat)) (flen : Nat) : Bool :=
 def intAt (fields : List Bytes) (i : Nat) : Res Nat :=
   match fields[i]? with
   | none => .err .indexError
-  | some t => match parseDec? t with
-    | none => .err .valueError
-    | some n => .ok n
+  | some t => intTok t
 
 def singlesEnv (fields : List Bytes) : List (String × Nat) → Res (List (String × Nat))
   | [] => .ok []
@@ -156,22 +171,26 @@ def sliceOf (fields : List Bytes) (lo : Nat) : Option Nat → List Bytes
 def branchFor (cfg : DiskCfg) (flen : Nat) : Option Branch :=
   cfg.branches.find? fun b => guardHolds b.guard flen
 
+/-- body of `for entry in gen` for one yielded tuple (after `name`), common to both sources:
+    `(name, …) = entry`, `rbytes *= DISK_SECTOR_SIZE; wbytes *= …`, the tuple stored -/
+def storeEntry (cfg : DiskCfg) (entry : List Nat) : Res (List Nat) :=
+  if entry.length ≠ cfg.entryNames.length then .err .valueError
+  else
+    let env2 := (cfg.entryNames.zip entry).map fun kv =>
+      if cfg.scaled.contains kv.1 then (kv.1, kv.2 * cfg.sector) else kv
+    match lookups env2 cfg.retNames with
+    | none => .err .nameError
+    | some t => .ok t
+
 /-- from the unpacked integers to the stored tuple: the locals of the branch, the yielded
-    tuple, `(name, …) = entry`, `rbytes *= DISK_SECTOR_SIZE; wbytes *= …`, the tuple stored -/
+    tuple, then `storeEntry` -/
 def diskValues (cfg : DiskCfg) (b : Branch) (e1 : List (String × Nat)) (vs : List Nat) : Res (List Nat) :=
   if vs.length ≠ b.unpack.length then .err .valueError
   else
     let env := e1 ++ b.unpack.zip vs ++ b.zeros.map (fun n => (n, 0))
     match lookups env cfg.yieldNames with
     | none => .err .nameError
-    | some entry =>
-      if entry.length ≠ cfg.entryNames.length then .err .valueError
-      else
-        let env2 := (cfg.entryNames.zip entry).map fun kv =>
-          if cfg.scaled.contains kv.1 then (kv.1, kv.2 * cfg.sector) else kv
-        match lookups env2 cfg.retNames with
-        | none => .err .nameError
-        | some t => .ok t
+    | some entry => storeEntry cfg entry
 
 def diskFields (cfg : DiskCfg) (fields : List Bytes) : Res (Bytes × List Nat) :=
   match branchFor cfg fields.length with
@@ -181,14 +200,13 @@ def diskFields (cfg : DiskCfg) (fields : List Bytes) : Res (Bytes × List Nat) :
     | none => .err .indexError
     | some name =>
       (singlesEnv fields b.singles).bind fun e1 =>
-      match ints (sliceOf fields b.lo b.hi) with
-      | none => .err .valueError
-      | some vs => (diskValues cfg b e1 vs).bind fun t => .ok (name, t)
+      (ints (sliceOf fields b.lo b.hi)).bind fun vs =>
+      (diskValues cfg b e1 vs).bind fun t => .ok (name, t)
 
 /-- one iteration of `read_procfs` followed by the body of the `for entry in gen` loop up to
     (not including) the partition filter: the name and the tuple that would be stored -/
 def diskLine (cfg : DiskCfg) (line : Bytes) : Res (Bytes × List Nat) :=
-  diskFields cfg (splitP isWsT line)
+  if hasUniSpace line then .err .unmodelled else diskFields cfg (splitP isWsT line)
 
 /-- `is_storage_device(name)`: `os.access("/sys/block/" + name.replace('/', '!'), F_OK)`;
     `sysBlock` = the entries of `/sys/block` -/
@@ -208,6 +226,69 @@ def diskFold (cfg : DiskCfg) (storage : Bytes → Bool) (perdisk : Bool) : Dict 
 def diskPlatform (cfg : DiskCfg) (storage : Bytes → Bool) (perdisk : Bool) (file : Bytes) : Res Dict :=
   diskFold cfg storage perdisk [] (textLines cfg.univNl file)
 
+/-! ### `read_sysfs`, the choice of the source, `NotImplementedError` -/
+
+structure SysfsCfg where
+  statName : Bytes          -- `'stat'` in `if 'stat' not in files` / `os.path.join(root, 'stat')`
+  take : Nat                -- `fields[:10]`
+  unpack : List String      -- names on the left of `= map(int, fields[:10])`
+  yieldNames : List String  -- the yielded tuple after `name`
+
+/-- `f.read()` of a text-mode file -/
+def textRead (univ : Bool) (content : Bytes) : Bytes := if univ then univNl content else content
+
+/-- one directory with a `stat` file: `f.read().strip().split()`, `map(int, fields[:10])`, the
+    unpack, the yielded tuple after `name` -/
+def sysfsStat (sc : SysfsCfg) (univ : Bool) (content : Bytes) : Res (List Nat) :=
+  let txt := textRead univ content
+  if hasUniSpace txt then .err .unmodelled else
+  let fields := splitP isWsT (stripP isWsT txt)
+  (ints (fields.take sc.take)).bind fun vs =>
+    if vs.length ≠ sc.unpack.length then .err .valueError
+    else match lookups (sc.unpack.zip vs) sc.yieldNames with
+      | none => .err .nameError
+      | some e => .ok e
+
+/-- the directories `read_sysfs` opens a `stat` file in, in walk order: (`basename(root)`, content) -/
+def sysfsEntries (sc : SysfsCfg) (blocks : List SysDir) : List (Bytes × Bytes) :=
+  (walkList blocks).filterMap fun e => (e.2.lookup sc.statName).map fun c => (e.1, c)
+
+def sysfsFold (cfg : DiskCfg) (sc : SysfsCfg) (storage : Bytes → Bool) (perdisk : Bool) :
+    Dict → List (Bytes × Bytes) → Res Dict
+  | d, [] => .ok d
+  | d, e :: r =>
+    match (sysfsStat sc cfg.univNl e.2).bind (storeEntry cfg) with
+    | .err x => .err x
+    | .ok t =>
+      if (cfg.skipPartitions && !perdisk && !storage e.1) then sysfsFold cfg sc storage perdisk d r
+      else sysfsFold cfg sc storage perdisk (d.set e.1 t) r
+
+/-- what `disk_io_counters` can see of the system -/
+structure DiskWorld where
+  diskstats : Option Bytes          -- content of `{procfs}/diskstats`; `none` = does not exist
+  sysBlock : Option (List SysDir)   -- the directories listed in `/sys/block`; `none` = does not exist
+
+/-- `is_storage_device` in a world: `os.access` finds nothing when `/sys/block` does not exist -/
+def storageW (cfg : DiskCfg) (w : DiskWorld) (name : Bytes) : Bool :=
+  match w.sysBlock with
+  | none => false
+  | some bs => isStorageDevice cfg (bs.map (·.name)) name
+
+/-- `if os.path.exists(<first>) … elif os.path.exists(<second>) … else raise NotImplementedError`;
+    `sources` = the generators in the order the code tries them -/
+def diskPlatformW (cfg : DiskCfg) (sc : SysfsCfg) (w : DiskWorld) (perdisk : Bool) : List String → Res Dict
+  | [] => .err .notImplementedError
+  | s :: r =>
+    if s = "read_procfs" then
+      match w.diskstats with
+      | some f => diskPlatform cfg (storageW cfg w) perdisk f
+      | none => diskPlatformW cfg sc w perdisk r
+    else if s = "read_sysfs" then
+      match w.sysBlock with
+      | some bs => sysfsFold cfg sc (storageW cfg w) perdisk [] (sysfsEntries sc bs)
+      | none => diskPlatformW cfg sc w perdisk r
+    else .err .nameError
+
 /-! ### front ends `psutil.net_io_counters(pernic, nowrap=False)` /
     `psutil.disk_io_counters(perdisk, nowrap=False)` -/
 
@@ -222,10 +303,35 @@ inductive Out
   | exc (e : Exc)
   deriving Repr
 
-/-- `[sum(x) for x in zip(*rows)]` -/
-def sumCols : List (List Nat) → List Nat
+/-- `zip(*rows)`: the columns, as many as the shortest row has -/
+def zipStar : List (List Nat) → List (List Nat)
   | [] => []
-  | r :: rs => rs.foldl (fun acc x => List.zipWith (· + ·) acc x) r
+  | [r] => r.map fun x => [x]
+  | r :: rs => List.zipWith (· :: ·) r (zipStar rs)
+
+/-- the shape of the system-wide total, `nt(*(<reducer>(x) for x in <source>))`, as extracted -/
+structure AggCfg where
+  reducer : String      -- `sum`
+  source : String       -- `zip(*rawdict.values())`
+
+/-- the built-in applied to one column (a non-empty tuple of ints) -/
+def reduceCol (r : String) (col : List Nat) : Option Nat :=
+  if r = "sum" then some col.sum
+  else if r = "max" then some (col.foldl max 0)
+  else if r = "min" then some (col.foldl min (col.headD 0))
+  else if r = "len" then some col.length
+  else none
+
+def reduceCols (r : String) : List (List Nat) → Option (List Nat)
+  | [] => some []
+  | c :: cs =>
+    match reduceCol r c, reduceCols r cs with
+    | some v, some vs => some (v :: vs)
+    | _, _ => none
+
+/-- `(<reducer>(x) for x in zip(*rawdict.values()))` (`none` = a shape the model does not know) -/
+def aggregate (agg : AggCfg) (rows : List (List Nat)) : Option (List Nat) :=
+  if agg.source = "zip(*rawdict.values())" then reduceCols agg.reducer (zipStar rows) else none
 
 /-- `nt(*vals)` -/
 def mkTuple (fields : List String) (vals : List Nat) : Res NT :=
@@ -237,7 +343,7 @@ def perdevTuples (fields : List String) : Dict → Res (List (Bytes × NT))
     (mkTuple fields kv.2).bind fun t => (perdevTuples fields r).bind fun rest => .ok ((kv.1, t) :: rest)
 
 /-- `emptyPer` / `emptyTot`: what `return {} if perdisk else None` returns in either case -/
-def frontEnd (ntFields : List String) (emptyPer emptyTot : Out) (per : Bool) (raw : Res Dict) : Out :=
+def frontEnd (ntFields : List String) (agg : AggCfg) (emptyPer emptyTot : Out) (per : Bool) (raw : Res Dict) : Out :=
   match raw with
   | .err e => .exc e
   | .ok d =>
@@ -247,9 +353,12 @@ def frontEnd (ntFields : List String) (emptyPer emptyTot : Out) (per : Bool) (ra
       | .ok r => .perdev r
       | .err e => .exc e
     else
-      match mkTuple ntFields (sumCols (d.map (·.2))) with
-      | .ok t => .total t
-      | .err e => .exc e
+      match aggregate agg (d.map (·.2)) with
+      | none => .exc .nameError
+      | some vs =>
+        match mkTuple ntFields vs with
+        | .ok t => .total t
+        | .err e => .exc e
 
 /-! ### `_psposix.disk_usage` -/
 
